@@ -66,7 +66,7 @@ CHECKS = {
  "C16": dict(level="model_checking", design="5 (C16), 3.5",
    technique="TLC model checking (safety + liveness) of AnkoChan.tla pipelines under every interleaving, AnkoChanSeq.tla for the one-goroutine error forms; replay of every sequential program and repeated perturbed runs of every pipeline configuration on the real VM",
    text="The pipeline model (goroutines over buffered/unbuffered Go channels with rendezvous) is explored exhaustively for every configuration: FIFO/exactly-once per channel, delivery of everything, termination under weak fairness, no deadlock, with a value-losing spec mutant as negative control. The real interpreter runs each configuration many times under hook-injected schedule perturbation and several GOMAXPROCS and must always return the model's unique outcome (sequence and element type); all one-goroutine operation sequences (send on closed, double close, receive on closed, two-value receive) are replayed observation by observation, with and without a cancellable context.",
-   note="Trusted: Go channel semantics as documented. Real schedules are sampled, not enumerated. Bounds: 0-2 (thorough 3) stages, capacity 0-2 (3), up to 3 (4) items, 3 consumer modes, 3 element types; sequences up to length 5 (6)."),
+   note="Trusted: Go channel semantics as documented. Real schedules are sampled, not enumerated. Bounds: 0-2 (thorough 3) stages, capacity 0-2 (3), up to 3 (4) items, 3 consumer modes, 3 element types, stage functions with 3 / 5 / variadic parameters; pipelines of 5-70 stages beyond the model-checked sizes; the fan-out design AnkoChanFan (2-3 workers on one channel, model-checked with a negative control) with 2-5 workers and up to 40 items on the real VM; sequences up to length 5 (6) incl. the relay form d <- c."),
  "C02": dict(level="model_checking", design="5 (C02), 3.5",
    technique="TLC model checking (safety + liveness under weak fairness) of AnkoCancel.tla with wrong-design negative controls + cancellation delivered inside the verif hooks at every gate of every core x wrapper program on the real VM, observations validated by TLC",
    text="The abstract interpreter thread (polls at statement entry, loop heads and channel waits; interrupt wrapped at function boundaries; try, ?? and deferred calls as potential swallowers) is model-checked for every stack of up to three wrappers with cancellation at any moment: no effect after the cancellation is observed, the result is the interrupt, and cancelled leads to finished. On the real interpreter the context is cancelled at the k-th gate for every k (exact instants at poll granularity) for 18 spinning/blocking cores under 26 wrappers (incl. functions defined by an earlier run) and sampled pairs, and once asynchronously; 16 calls under one context contending for a host channel must all return; each run must return within 5 s with 'execution interrupted' and without later script effects.",
@@ -74,7 +74,7 @@ CHECKS = {
  "C20": dict(level="model_checking", design="5 (C20), 3.2",
    technique="TLC enumerates operation template x operand value x provenance chain and builds each script (AnkoProvenance.tla); outcomes observed on the real VM are validated by TLC against the law Outcome(T[c(v)]) = Outcome(T[v])",
    text="Every provenance hop (slice element, map entry, script call, Go call returning interface{}, parentheses, ternary, ??) is specified as the identity on values; the product of ~130 operation templates (every operator position, index/slice/len/in, call/spread/member/deref, loops, switch, conditions, make sizes, channel operations, delete, throw, assignment targets, defer/go) x 16 operand values x all chains up to length 2 (3) is enumerated by TLC and each instantiated script must yield the same canonical value, dynamic type and error-or-success as with the bare variable.",
-   note="Trusted: the canonical printing of outcomes (pointers followed, addresses masked, maps sorted); the bare-variable outcome is the reference, so an operation that is wrong for every provenance alike is not this property's business. One excluded combination (element assignment on a string through a non-assignable operand)."),
+   note="Trusted: the canonical printing of outcomes (pointers followed, addresses masked, maps sorted); the bare-variable outcome is the reference, so an operation that is wrong for every provenance alike is not this property's business. Chains may start at a NAMED list / map that stays reachable, with templates whose later operand stores into it after the read. One excluded combination (element assignment on a string through a non-assignable operand)."),
  "C10": dict(level="model_checking", design="5 (C10), 3.8",
    technique="TLC exhaustive model checking of the bounded machine MC_AnkoContainers.tla over AnkoContainers.tla (design properties as invariants / action properties, negative controls) + transition-cover replay into the real interpreter + TLC trace validation (Trace_AnkoContainers.tla) of recorded random histories",
    text="The specification keeps the heap of backing arrays and slice headers explicitly, so aliasing, writes through shared storage, appends within and beyond capacity and 3-index capacity limits are part of the state; each recorded statement's result and the whole projection after it (contents, len, cap, storage sharing measured through data pointers, map contents, fields) must be a step the specification allows, with errors leaving everything unchanged. The same Step function drives a bounded machine (per family: slices, maps, strings, typed containers and struct fields incl. a map-typed field and values read into variables) that TLC explores exhaustively up to a depth bound with the clauses of the statement as properties (WindowOK, TypedHolds, ErrUnchanged, ReadsPure, StoreExact, SliceShares, AliasIsReference, GrowthLocal, StringsAreValues, MapAliasing, BoundValuesStay); one history per transition is replayed on the interpreter and judged by the trace specification.",
